@@ -54,6 +54,15 @@ def run(c):
     c.cov["planted_scoping_faults"] = r["cases"]
     for m in r["first"]:
         c.violate("%s: %r" % (m["what"], m["text"]), dict(m, kind="plant-scope"))
+    # (iii) the source range of every node of the parser's output = the tokens of that node (`sp` prescribed by GramUnparse)
+    out = os.path.join(d, "node-spans.json")
+    vf.gv(["replay-parse", st["out"], 0, out], timeout=3000)
+    r = json.load(open(out))
+    c.cov["replayed_cases"] += r["derivations"]
+    c.cov["node_span_trees"] = r["derivations"]
+    for m in r["span_first"]:
+        c.violate("source range of a node is not the node's text: %s (%s)" % (m["text"], m["detail"]),
+                  {"kind": "node-span", "text": m["text"], "detail": m["detail"], "lost_open_paren": m["detail"].startswith("LOST-OPEN-PAREN")})
     # (ii) type faults on TLC's well-typed programs and on the corpus
     sp = vf.tlc_generate("MC_Programs", pc.prog_cfg(5 if q else 6, ["sum", "quot", "lt"]), "prog-s%d" % (5 if q else 6), timeout=6000, workers=14)
     c.add_tlc(sp, "well-typed programs hosting planted type faults; generation")
